@@ -435,6 +435,9 @@ func C07(r *eng.Run) {
 		r.Probe("utf8_check_in_extended_state")
 	}
 	cfg.OnCont = false
+	if cfg.App == AppReader && r.T.Chance(sim.LCfg, 1, 4) {
+		cfg.OnCont, cfg.OnContRead = true, true
+	}
 	if cfg.App == AppReadData && cfg.Variant == 3 {
 		cfg.Variant = 2
 	}
@@ -453,7 +456,7 @@ func C07(r *eng.Run) {
 	p := NewPipe(r, s.Wire)
 	p.Marks = MarksOf(s.Frames)
 	p.SegMode = DrawSeg(r)
-	if cfg.App == AppReader && r.T.Bool(sim.LCfg) {
+	if cfg.App == AppReader && !cfg.OnContRead && r.T.Bool(sim.LCfg) {
 		c07Tolerant(r, cfg, s, p)
 		return
 	}
